@@ -30,6 +30,11 @@ Lemma done_F : forallb p_done R_F = true. Proof. vm_compute; reflexivity. Qed.
 Definition r_act (a : act) : bool := match a with RunLookup | REnter | RStep | RReset => true | _ => false end.
 Definition c_act (a : act) : bool := match a with CancelLookup | CStep => true | _ => false end.
 
+Definition g_act (a : act) : bool :=
+  match a with TimerFire | GPick _ | GRtOut _ | JobReturn | GStep => true | _ => false end.
+Lemma g_act_rc : forall a, g_act a = true -> r_act a = false /\ c_act a = false.
+Proof. intros a H; destruct a; try discriminate H; split; reflexivity. Qed.
+
 Lemma rc_finalise : forall s, r_pc (finalise s) = r_pc s /\ c_pc (finalise s) = c_pc s.
 Proof. intro s; unfold finalise; destruct (cancel_closed s || run_closed s); split; reflexivity. Qed.
 
@@ -267,21 +272,21 @@ Section OneOffFinal.
 
   Lemma g_moves_shape : forall now t t', In t' (g_moves sc now t) ->
       t_calls t' = t_calls t /\ (g_pc (t_core t) <> GRt -> t_deadline t' = t_deadline t)
-      /\ exists a, r_act a = false /\ c_act a = false /\ step (sc_cfg sc) (t_core t) a = Some (t_core t').
+      /\ exists a, g_act a = true /\ step (sc_cfg sc) (t_core t) a = Some (t_core t').
   Proof.
     intros now t t' H. unfold g_moves in H.
-    assert (Hcore : forall a, r_act a = false -> c_act a = false ->
+    assert (Hcore : forall a, g_act a = true ->
               In t' (map (with_core t) (opt_list (step (sc_cfg sc) (t_core t) a))) ->
               t_calls t' = t_calls t /\ t_deadline t' = t_deadline t
-              /\ exists a, r_act a = false /\ c_act a = false /\ step (sc_cfg sc) (t_core t) a = Some (t_core t')).
-    { intros a Hr Hc Hin. apply in_map_opt in Hin as [c' [Hs ->]]. split; [reflexivity|]. split; [reflexivity|]. exists a; auto. }
-    assert (Hcore' : forall a, r_act a = false -> c_act a = false ->
+              /\ exists a, g_act a = true /\ step (sc_cfg sc) (t_core t) a = Some (t_core t')).
+    { intros a Hr Hin. apply in_map_opt in Hin as [c' [Hs ->]]. split; [reflexivity|]. split; [reflexivity|]. exists a; auto. }
+    assert (Hcore' : forall a, g_act a = true ->
               In t' (map (with_core t) (opt_list (step (sc_cfg sc) (t_core t) a))) ->
               t_calls t' = t_calls t /\ (g_pc (t_core t) <> GRt -> t_deadline t' = t_deadline t)
-              /\ exists a, r_act a = false /\ c_act a = false /\ step (sc_cfg sc) (t_core t) a = Some (t_core t')).
-    { intros a Hr Hc Hin. destruct (Hcore a Hr Hc Hin) as [H1 [H2 H3]]. auto. }
+              /\ exists a, g_act a = true /\ step (sc_cfg sc) (t_core t) a = Some (t_core t')).
+    { intros a Hr Hin. destruct (Hcore a Hr Hin) as [H1 [H2 H3]]. auto. }
     destruct (g_pc (t_core t)) eqn:Hg;
-      try (apply (Hcore' GStep); [reflexivity | reflexivity | exact H]).
+      try (apply (Hcore' GStep); [reflexivity | exact H]).
     - (* GRt *)
       split; [|split; [intro Hne; congruence|]].
       + destruct (0 <? t_rt_left t); [apply in_map_opt in H as [c' [Hs ->]]; reflexivity | apply in_map_opt in H as [c' [Hs ->]]; reflexivity].
@@ -312,7 +317,7 @@ Section OneOffFinal.
 
   Lemma g_moves_kinv : forall now t t', kinv sc t -> In (t_core t) R_F -> In t' (g_moves sc now t) -> kinv sc t'.
   Proof.
-    intros now t t' K HR H. destruct (g_moves_shape now t t' H) as [Hc [Hd [a [Hra [Hca Hs]]]]].
+    intros now t t' K HR H. destruct (g_moves_shape now t t' H) as [Hc [Hd [a [Hga Hs]]]]. destruct (g_act_rc a Hga) as [Hra Hca].
     assert (Hn : g_pc (t_core t) <> GRt).
     { pose proof (shape_of _ HR) as Hsh. unfold p_shape in Hsh. intro Hg. rewrite Hg in Hsh. discriminate Hsh. }
     constructor.
@@ -442,3 +447,179 @@ Section OneOffFinal.
     destruct Hs as [_ Hlen]. rewrite Hruns in Hlen. symmetry in Hlen. apply sat2_eq_1 in Hlen. lia.
   Qed.
 End OneOffFinal.
+
+(* ---------------------------------------------------------------------------------------------
+   the flags of the job machine versus the results of the calls (every script, both kinds of job):
+   [cancel_ok] is raised only when a CancelJob call returns nil, [ctx_done] only by a context
+   cancellation of the script *)
+
+Lemma step_cancel_ok : forall cf c a c', step cf c a = Some c' -> cancel_ok c' = true ->
+    cancel_ok c = true \/ (a = CStep /\ c_pc c' = CDone Nil).
+Proof.
+  intros cf c a c' H Hc.
+  destruct a; cbn [step] in H;
+    unfold g_pick, g_step, g_return, g_rt, run_lookup, r_enter, r_step, r_reset, cancel_lookup, c_step,
+           call_job, return_job, finalise in H;
+    break_hyp H; injection H as <-;
+    cbn [cancel_ok c_pc set_g set_r set_c set_table set_active set_finalised set_runq set_cancelq set_timer set_ctx
+         set_counts set_run_ok set_cancel_ok set_panic] in Hc |- *;
+    first [left; exact Hc | right; split; reflexivity | idtac].
+Qed.
+
+Lemma step_ctx_done : forall cf c a c', step cf c a = Some c' -> ctx_done c' = true ->
+    ctx_done c = true \/ a = CtxCancel.
+Proof.
+  intros cf c a c' H Hc.
+  destruct a; cbn [step] in H;
+    unfold g_pick, g_step, g_return, g_rt, run_lookup, r_enter, r_step, r_reset, cancel_lookup, c_step,
+           call_job, return_job, finalise in H;
+    break_hyp H; injection H as <-;
+    cbn [ctx_done set_g set_r set_c set_table set_active set_finalised set_runq set_cancelq set_timer set_ctx
+         set_counts set_run_ok set_cancel_ok set_panic] in Hc |- *;
+    first [left; exact Hc | right; reflexivity].
+Qed.
+
+Section Observable.
+  Variable sc : script.
+
+  Definition has_ret (k : ckind) (t : tstate) : Prop :=
+    exists i cl, nth_error (sc_calls sc) i = Some cl /\ cl_kind cl = k /\ nth_error (t_calls t) i = Some (Ret Nil).
+
+  Record oinv (t : tstate) : Prop := {
+    oi_can : cancel_ok (t_core t) = true -> has_ret KCancel t;
+    oi_ctx : ctx_done (t_core t) = true -> has_ret KCtx t
+  }.
+
+  Lemma hr_other : forall k t i st st' c', has_ret k t -> nth_error (t_calls t) i = Some st -> st <> Ret Nil ->
+      has_ret k (with_call t i st' c').
+  Proof.
+    intros k t i st st' c' [j [cl [H1 [H2 H3]]]] Hi Hne. exists j, cl. repeat split; try assumption.
+    rewrite with_call_calls, upd_nth_other; [exact H3 | | apply nth_error_Some; congruence].
+    intros ->. rewrite Hi in H3. congruence.
+  Qed.
+
+  Lemma hr_self : forall k t i cl st c', nth_error (sc_calls sc) i = Some cl -> cl_kind cl = k ->
+      nth_error (t_calls t) i = Some st -> has_ret k (with_call t i (Ret Nil) c').
+  Proof.
+    intros k t i cl st c' Hi Hk' Hs. exists i, cl. repeat split; try assumption.
+    rewrite with_call_calls. apply upd_nth_same. apply nth_error_Some; congruence.
+  Qed.
+
+  (* a step that is neither CStep nor CtxCancel, followed by a status change of a call that had not returned *)
+  Lemma oinv_quiet : forall t i st st' a c',
+      oinv t -> nth_error (t_calls t) i = Some st -> st <> Ret Nil ->
+      step (sc_cfg sc) (t_core t) a = Some c' -> a <> CStep -> a <> CtxCancel ->
+      oinv (with_call t i st' c').
+  Proof.
+    intros t i st st' a c' O Hi Hne Hs Ha1 Ha2. constructor; cbn [t_core with_call]; intro Hf.
+    - destruct (step_cancel_ok _ _ _ _ Hs Hf) as [Hc | [Hc _]]; [|congruence].
+      eapply hr_other; eauto. apply (oi_can t O Hc).
+    - destruct (step_ctx_done _ _ _ _ Hs Hf) as [Hc | Hc]; [|congruence].
+      eapply hr_other; eauto. apply (oi_ctx t O Hc).
+  Qed.
+
+  Lemma oinv_same : forall t i st st', oinv t -> nth_error (t_calls t) i = Some st -> st <> Ret Nil ->
+      oinv (with_call t i st' (t_core t)).
+  Proof.
+    intros t i st st' O Hi Hne. constructor; cbn [t_core with_call]; intro Hf.
+    - eapply hr_other; eauto. apply (oi_can t O Hf).
+    - eapply hr_other; eauto. apply (oi_ctx t O Hf).
+  Qed.
+
+  Lemma call_moves_oinv : forall now t i cl st t',
+      oinv t -> nth_error (sc_calls sc) i = Some cl -> nth_error (t_calls t) i = Some st ->
+      In t' (call_moves sc now t i cl st) -> oinv t'.
+  Proof.
+    intros now t i cl st t' O Hcl Hst H. unfold call_moves in H.
+    destruct st; try (destruct H; fail).
+    - (* Waiting *)
+      assert (Hw : Waiting <> Ret Nil) by discriminate.
+      destruct (cl_at cl <=? now); [|destruct H].
+      destruct (cl_kind cl) eqn:Ekind.
+      + destruct (in_table (t_core t)).
+        * destruct (step (sc_cfg sc) (t_core t) RunLookup) as [c'|] eqn:E; [|destruct H].
+          destruct H as [<-|[]]. eapply oinv_quiet; eauto; discriminate.
+        * destruct H as [<-|[]]. eapply oinv_same; eauto.
+      + destruct (in_table (t_core t)).
+        * destruct (step (sc_cfg sc) (t_core t) CancelLookup) as [c'|] eqn:E; [|destruct H].
+          destruct H as [<-|[]]. eapply oinv_quiet; eauto; discriminate.
+        * destruct H as [<-|[]]. eapply oinv_same; eauto.
+      + destruct H as [<-|[]].
+        destruct (step (sc_cfg sc) (t_core t) CtxCancel) as [c'|] eqn:E.
+        * constructor; cbn [t_core with_call]; intro Hf.
+          -- destruct (step_cancel_ok _ _ _ _ E Hf) as [Hc | [Hc _]]; [|discriminate Hc].
+             eapply hr_other; eauto. apply (oi_can t O Hc).
+          -- eapply hr_self; eauto.
+        * constructor; cbn [t_core with_call]; intro Hf.
+          -- eapply hr_other; eauto. apply (oi_can t O Hf).
+          -- eapply hr_self; eauto.
+      + destruct H as [<-|[]]. eapply oinv_same; eauto.
+      + destruct H as [<-|[]]. eapply oinv_same; eauto.
+    - (* HasPtr *)
+      destruct (step (sc_cfg sc) (t_core t) REnter) as [c'|] eqn:E; [|destruct H].
+      destruct H as [<-|[]]. eapply oinv_quiet; eauto; discriminate.
+    - (* InSlot *)
+      assert (Hw : InSlot <> Ret Nil) by discriminate.
+      destruct (cl_kind cl) eqn:Ekind; try (destruct H; fail).
+      + set (next := match r_pc (t_core t) with RHave => step (sc_cfg sc) (t_core t) REnter | _ => step (sc_cfg sc) (t_core t) RStep end) in H.
+        destruct next as [c'|] eqn:E; [|destruct H].
+        assert (Hn : exists a, a <> CStep /\ a <> CtxCancel /\ step (sc_cfg sc) (t_core t) a = Some c').
+        { subst next. destruct (r_pc (t_core t)); [exists RStep | exists REnter | exists RStep | exists RStep | exists RStep | exists RStep | exists RStep];
+            (split; [discriminate | split; [discriminate | exact E]]). }
+        destruct Hn as [a [Ha1 [Ha2 Hs]]].
+        pose proof (fun st' => oinv_quiet t i InSlot st' a c' O Hst Hw Hs Ha1 Ha2) as Hq.
+        destruct (r_pc c') as [| | | | | |code] eqn:Er; try (destruct H as [<-|[]]; apply Hq).
+        destruct H as [<-|[]].
+        destruct (step (sc_cfg sc) c' RReset) as [c''|] eqn:E2; [|apply Hq].
+        (* a second quiet step: the flags of c'' are those of c' *)
+        specialize (Hq (Ret code)). constructor; cbn [t_core with_call]; intro Hf.
+        * destruct (step_cancel_ok _ _ _ _ E2 Hf) as [Hc | [Hc _]]; [|discriminate Hc].
+          destruct (oi_can _ Hq Hc) as [j [cl' [H1 [H2 H3]]]]. exists j, cl'. auto.
+        * destruct (step_ctx_done _ _ _ _ E2 Hf) as [Hc | Hc]; [|discriminate Hc].
+          destruct (oi_ctx _ Hq Hc) as [j [cl' [H1 [H2 H3]]]]. exists j, cl'. auto.
+      + destruct (step (sc_cfg sc) (t_core t) CStep) as [c'|] eqn:E; [|destruct H].
+        assert (Hx : forall st', (c_pc c' = CDone Nil -> st' = Ret Nil) -> oinv (with_call t i st' c')).
+        { intros st' Hst'. constructor; cbn [t_core with_call]; intro Hf.
+          - destruct (step_cancel_ok _ _ _ _ E Hf) as [Hc | [_ Hc]].
+            + eapply hr_other; eauto. apply (oi_can t O Hc).
+            + rewrite (Hst' Hc). eapply hr_self; eauto.
+          - destruct (step_ctx_done _ _ _ _ E Hf) as [Hc | Hc]; [|discriminate Hc].
+            eapply hr_other; eauto. apply (oi_ctx t O Hc). }
+        destruct (c_pc c') eqn:Ec; destruct H as [<-|[]]; apply Hx; intro Hd; congruence.
+  Qed.
+
+  Lemma oinv_holds : forall t, In t (finals sc) -> oinv t.
+  Proof.
+    intros t Ht. apply (finals_inv sc oinv); [ | | exact Ht].
+    - intros now x x' O Hm. unfold moves in Hm. apply in_app_or in Hm as [Hm|Hm].
+      + destruct (g_moves_shape sc now x x' Hm) as [Hc [_ [a [Hga Hs]]]].
+        constructor; intro Hf.
+        * destruct (step_cancel_ok _ _ _ _ Hs Hf) as [Hc' | [Hc' _]]; [|subst a; discriminate Hga].
+          destruct (oi_can x O Hc') as [j [cl [H1 [H2 H3]]]]. exists j, cl. rewrite Hc. auto.
+        * destruct (step_ctx_done _ _ _ _ Hs Hf) as [Hc' | Hc']; [|subst a; discriminate Hga].
+          destruct (oi_ctx x O Hc') as [j [cl [H1 [H2 H3]]]]. exists j, cl. rewrite Hc. auto.
+      + apply all_call_moves_in in Hm as [k [cl [st [H1 [H2 H3]]]]].
+        eapply call_moves_oinv; [exact O | exact H1 | exact H2 | exact H3].
+    - constructor; cbn [t_init t_core]; unfold init; cbn; discriminate.
+  Qed.
+End Observable.
+
+(* the observable form: hypotheses on the results of the calls *)
+Definition no_ret_nil (sc : script) (k : ckind) (sts : list cst) : Prop :=
+  forall i cl, nth_error (sc_calls sc) i = Some cl -> cl_kind cl = k -> nth_error sts i <> Some (Ret Nil).
+
+Theorem script_exactly_once_obs : forall sc, sc_kind sc = OneOff -> sc_variant sc = Fixed ->
+  forall t, In t (finals sc) ->
+    sc_due sc <= sc_end sc ->
+    no_ret_nil sc KCancel (t_calls t) -> no_ret_nil sc KCtx (t_calls t) -> running (t_core t) = 0 ->
+    length (o_starts (outcome_of t)) = 1%nat.
+Proof.
+  intros sc Hk Hv t Ht Hdue Hnc Hnx Hrun.
+  pose proof (oinv_holds sc t Ht) as O.
+  unfold outcome_of; cbn [o_starts]. rewrite rev_length.
+  apply (script_exactly_once sc Hk Hv t Ht Hdue); [ | | exact Hrun].
+  - destruct (cancel_ok (t_core t)) eqn:E; [|reflexivity].
+    destruct (oi_can sc t O E) as [i [cl [H1 [H2 H3]]]]. exfalso. exact (Hnc i cl H1 H2 H3).
+  - destruct (ctx_done (t_core t)) eqn:E; [|reflexivity].
+    destruct (oi_ctx sc t O E) as [i [cl [H1 [H2 H3]]]]. exfalso. exact (Hnx i cl H1 H2 H3).
+Qed.
